@@ -345,6 +345,7 @@ class Image(Traversable):
                 candidate_names[candidate_name] = []
             candidate_names[candidate_name].append(element)
 
+        assigned_names = set()
         for name, subelements in candidate_names.items():
             if len(subelements) == 1:
                 element = subelements[0]
@@ -357,7 +358,8 @@ class Image(Traversable):
                 if i > 1:
                     next_name = self._add_count_to_name(name, i)
                     j = 0
-                    while (next_name in candidate_names.keys()):
+                    while (next_name in candidate_names.keys() 
+                            or next_name in assigned_names):
                         i += 1
                         j += 1
                         next_name = self._add_count_to_name(name, i)
@@ -371,6 +373,7 @@ class Image(Traversable):
                 else:
                     next_name = name
                 f_set(element, next_name)
+                assigned_names.add(next_name)
 
         result = elements
         return result
